@@ -206,9 +206,8 @@ class ReqGen:
             nid = r.choice(["t1", "t2", "ns3", "ns4"])
             k = r.random()
             p = {"namespace_id": nid, "namespace_name": r.choice([None, "name-%d" % self.serial]), "type": r.choice([None, "2"])}
-            if k < 0.3:
-                return {"NamespaceReq": {"AddOnly": p}}
-            if k < 0.5:
+            # AddOnly / InitFromOldValue are never issued by any code path of the system (migration leftovers): not generated
+            if k < 0.4:
                 return {"NamespaceReq": {"Update": p}}
             if k < 0.8:
                 return {"NamespaceReq": {"Set": p}}
